@@ -1,6 +1,8 @@
 """Snapshot of every public observable of a graph, for "observably unchanged" / "same graph"."""
 import copy
 
+from .model import snap
+
 
 def _k(x):
     return repr(x)
@@ -12,7 +14,7 @@ def observe(G, nodes=None, probes=None):
     out = {}
     out['class'] = type(G).__name__
     out['edge_removal'] = getattr(G, 'edge_removal', None)
-    out['nodes'] = sorted(((_k(n), copy.deepcopy(a)) for n, a in G.nodes(data=True)), key=lambda x: x[0])
+    out['nodes'] = sorted(((_k(n), snap(a)) for n, a in G.nodes(data=True)), key=lambda x: x[0])
     out['node_order'] = [_k(n) for n in G.nodes()]
     out['graph'] = copy.deepcopy(G.graph)
     tl = []
